@@ -21,7 +21,7 @@ chk("C12",
     "Trusted: harness rank model (expiry / last served instant / serve count). Heap and Sys limits are configured at a value that can never be exceeded (they must not cause eviction); exceeding them is only reachable through EvictionNeeded (runtime.ReadMemStats is not seamed).",
     "exhaustive enumeration of a finite configuration x history table on the implementation", "DESIGN.md §C12")
 chk("C13",
-    "All ordered entry sequences up to the bound over the key-length x value-shape x expiry alphabet, with the dump order forced (shard placement for ShardedMap, every Range permutation for SyncMap through the sync.Map shim), for every backend pairing, 3-hop relays and a 300-entry cache; entries are written through one scratch key buffer and the target is compared with the entries WRITTEN; value types are registered through a variadic GobRegister call that repeats a known type; caches with default, LRU and LFU eviction configuration.",
+    "All ordered entry sequences up to the bound over the key-length x value-shape x expiry alphabet, with the dump order forced (shard placement for ShardedMap, every Range permutation for SyncMap through the sync.Map shim), for every backend pairing, 3-hop relays and a 300-entry cache; entries are written through one scratch key buffer and the target is compared with the entries WRITTEN; value types are registered through a variadic GobRegister call that repeats a known type; caches with default, LRU and LFU eviction configuration; sources expired with ExpireAll before the dump.",
     "Trusted: encoding/gob round-trips the chosen value alphabet (verified by the SM->SM cells themselves). Entry sequences longer than the bound are represented only by the 300-entry case.",
     "exhaustive enumeration of bounded input sequences in every iteration order on the implementation", "DESIGN.md §C13")
 
@@ -35,7 +35,7 @@ chk("C03",
     "exhaustive enumeration of a finite configuration table + stateless model checking of each cell", "DESIGN.md §C03")
 
 chk("C04",
-    "Exhaustive enumeration of schedules (preemption-bounded) of concurrent Gets plus caller behaviour after return (overwrite or reuse of the key buffer at every scheduling position relative to the background build, context cancellation), builders that succeed, fail or panic (recovered by the caller), and one injected backend fault at every call position; termination through the scheduler's deadlock detection, lock accounting at quiescence, a Get at quiescence that must observe the last completed build, and a black-box follow-up that must rebuild every key exactly once.",
+    "Exhaustive enumeration of schedules (preemption-bounded) of concurrent Gets plus caller behaviour after return (overwrite or reuse of the key buffer at every scheduling position relative to the background build, context cancellation), builders that succeed, fail or panic (recovered by the caller), and one injected backend fault at every call position; termination through the scheduler's deadlock detection, Gets that follow an aborted walk of the backend; lock accounting at quiescence, a Get at quiescence that must observe the last completed build, and a black-box follow-up that must rebuild every key exactly once.",
     "Trusted: verif-tagged key-lock accessor; follow-up phase as the black-box meaning of 'a later Get is able to build again'. Same granularity and bounds as C01.",
     "stateless model checking of the implementation with fault enumeration (preemption- and deviation-bounded DFS, deadlock detection)", "DESIGN.md §C04")
 
@@ -44,7 +44,7 @@ chk("C05",
     "Trusted: virtual clock/rand seams. Bursts happen at one virtual instant; bounds as C01.",
     "stateless model checking of the implementation (schedules) + exhaustive bounded operation-sequence enumeration", "DESIGN.md §C05")
 chk("C06",
-    "Complete enumeration of the caller-TTL x builder-WithTTL-behaviour x path (cold, sync/background update incl. unchanged value under ObserveMutability and nested builder TTL scopes, waiter, SkipRead on every entry state with and without a cached failure) x cancellation/deadline grid on the three front-ends, each case run under the scheduler with all schedules; a recording backend wrapper and the builder observe the TTL of every store and the build context.",
+    "Complete enumeration of the caller-TTL x builder-WithTTL-behaviour x path (cold, sync/background update incl. unchanged value under ObserveMutability and nested builder TTL scopes, waiter, SkipRead on every entry state with and without a cached failure, a SkipRead Get joining an in-flight update) x cancellation/deadline grid on the three front-ends, each case run under the scheduler with all schedules; a recording backend wrapper and the builder observe the TTL of every store and the build context.",
     "Trusted: recording wrapper; 'smallest non-zero' read over signed durations. TTL values outside the grid are not explored.",
     "exhaustive enumeration of a finite input/configuration table + stateless model checking of each case", "DESIGN.md §C06")
 
@@ -53,7 +53,7 @@ chk("C15",
     "Trusted: harness deleter wrappers; Go map iteration order is owned through the vinst map-range rewrite (sorted cursor). Unsynchronised memory access is left to C16.",
     "exhaustive input and fault-position enumeration + stateless model checking of the implementation", "DESIGN.md §C15")
 chk("C17",
-    "(seq) explicit-state BFS over Invalidate (also with a panicking callback recovered by the caller) / clock-advance / Callbacks=nil sequences against the acceptance model, every path under the scheduler (a call that never returns is a detected deadlock), the Invalidator's private timestamp being part of the state key; (conc) exhaustive schedule enumeration of 2-3 Invalidate callers plus a clock thread, with callbacks that contain a scheduling point so that overlap would be observable.",
+    "(seq) explicit-state BFS over Invalidate (also with a panicking callback recovered by the caller, and under an already cancelled context) / clock-advance / Callbacks=nil sequences against the acceptance model, every path under the scheduler (a call that never returns is a detected deadlock), the Invalidator's private timestamp being part of the state key; (conc) exhaustive schedule enumeration of 2-3 Invalidate callers plus a clock thread, with callbacks that contain a scheduling point so that overlap would be observable.",
     "Trusted: virtual clock; attribution of callbacks to calls through a context value.",
     "explicit-state BFS + stateless model checking of the implementation (preemption-bounded / HB-cached DFS)", "DESIGN.md §C17")
 
@@ -79,5 +79,5 @@ chk("C14",
 
 chk("C16",
     "For every small client program (every unordered pair of 13 backend operations x 3 backends x 3 strategies, every pair of InvalidationIndex operations, Failover/FailoverOf Get pairs incl. background builds and a shared TTL-carrying caller context, Invalidate pairs; finite and Unlimited TimeToLive; thorough: triples) ALL interleavings of the program's synchronisation operations within the bound are executed in a -race build under the controlled scheduler, whose hand-offs are invisible to the detector (plain words touched only from //go:norace code); Go's race detector decides each execution.",
-    "Trusted: Go race detector (happens-before, Go memory model) with report suppression disabled; invisibility of the hand-off (probed, DESIGN §2.6). Abstraction: 4 shards. Larger client programs are not explored. Known findings are matched on the exact unordered pair of racing bool64/cache functions.",
+    "Single-key operations pass a key buffer of their own and rewrite it after the call (a reference kept by the library is a race with Walk/Dump/eviction). Trusted: Go race detector (happens-before, Go memory model) with report suppression disabled; invisibility of the hand-off (probed, DESIGN §2.6). Abstraction: 4 shards. Larger client programs are not explored. Known findings are matched on the exact unordered pair of racing bool64/cache functions.",
     "stateless model checking of the implementation (DFS over schedules, HB caching) with the race detector as per-execution oracle", "DESIGN.md §C16")
